@@ -90,6 +90,8 @@ def _stages(case):
     def make_prog(grid):
         def prog(rank):
             comm = MPI.COMM_WORLD
+            if case["seed"] % 3 == 0:
+                comm = comm.Split(0, -rank)      # a communicator numbered in the opposite order to the world communicator
             sim = simrun.Sim(comm, c, grid, layout='v_parallel', save=True)
             sim.scatter(sim.f, F)
             st = driverlike.Stepper(sim, chi=0)
@@ -160,11 +162,24 @@ def _init(case):
         cfile = os.path.join(tmp, "c.json")
         d = dr.write_constants(cfile, npts, dt=2, iota=0.8 if case["seed"] % 2 else 0.0, extra={"m": 1 + case["seed"] % 4, "n": case["seed"] % 3})
 
+        variant = ["world", "reversed", "plot-rank-first", "plot-rank-last"][case["seed"] % 4]
+
         def prog(rank):
             grid, c, t = setups.setupCylindricalGrid(layout, constantFile=cfile, comm=MPI.COMM_WORLD)
             return simrun.Sim.block(grid), (c.rp, c.deltaR, c.R0, c.m, c.n, c.eps, c.CN0, c.kN0, c.deltaRN0, c.CTi, c.kTi, c.deltaRTi)
+
+        def progp(rank):
+            world = MPI.COMM_WORLD
+            if variant == "reversed":
+                grid, c, t = setups.setupCylindricalGrid(layout, constantFile=cfile, comm=world.Split(0, -rank))
+            elif variant.startswith("plot"):
+                # one additional, data-less plotting process: the workers are numbered differently in the world and in their own communicator
+                grid, c, t = setups.setupCylindricalGrid(layout, constantFile=cfile, comm=world, plotThread=True, drawRank=0 if variant == "plot-rank-first" else world.Get_size() - 1)
+            else:
+                grid, c, t = setups.setupCylindricalGrid(layout, constantFile=cfile, comm=world)
+            return simrun.Sim.block(grid), (c.rp, c.deltaR, c.R0, c.m, c.n, c.eps, c.CN0, c.kN0, c.deltaRN0, c.CTi, c.kTi, c.deltaRTi)
         ws = MPI.run_world(1, prog, timeout=300)
-        wp = MPI.run_world(P, prog, schedule="random", seed=case["seed"], timeout=300)
+        wp = MPI.run_world(P + (1 if variant.startswith("plot") else 0), progp, schedule="random", seed=case["seed"], timeout=300)
     finally:
         shutil.rmtree(tmp, ignore_errors=True)
     ev = dict(wp.events)
@@ -175,7 +190,7 @@ def _init(case):
             wit["traceback"] = (w.tracebacks[err[0]] or "")[-2500:]
             return result(VIOL, cls=["init/exception"], events=ev, key="C05:init-exception:%s" % type(err[1]).__name__, what="%s set-up (P=%d, layout %s): rank %d raised %r" % (who, P, layout, err[0], err[1]), witness=wit)
     Gs, _ = simrun.assemble([ws.results[0][0]], tuple(npts))
-    Gp, cov = simrun.assemble([r[0] for r in wp.results], tuple(npts))
+    Gp, cov = simrun.assemble([r[0] for r in wp.results if r[0][3].size > 0], tuple(npts))
     ev.update({"init_fields_compared": 1, "stage_fields_compared": 0, "driver_files_compared": 0, "r_split_runs": 0, "z_split_runs": 0})
     if not (cov == 1).all() or not np.array_equal(Gs, Gp):
         return result(VIOL, cls=["init/%s" % layout], events=ev, key="C05:initial-distribution/%s" % layout,
@@ -190,7 +205,7 @@ def _init(case):
     if not np.all(np.abs(Gp - ref) <= 200 * 2.2e-16 * np.abs(ref).max()):
         return result(VIOL, cls=["init/%s" % layout], events=ev, key="C05:initial-distribution-formula/%s" % layout,
                       what="initial f (layout %s, P=%d) differs from f_eq*(1+eps*perturbation) at global coordinates by %.3g" % (layout, P, float(np.abs(Gp - ref).max())), witness=wit)
-    return result(HELD, cls=["init/%s/P%d" % (layout, P)], events=ev, n_eval=1)
+    return result(HELD, cls=["init/%s/P%d/%s" % (layout, P, variant)], events=ev, n_eval=1)
 
 
 def _driver(case):
